@@ -440,6 +440,18 @@ def compile_lines(rng, tier, corpus=()):
                 if set(t) != {"I"} and t not in seen:
                     seen.add(t)
                     smp.append(f"compile {N} {k} {t}")
+    # sizes beyond those the exhaustive sweeps reach (N = 9..11, small k): identity left block with a LIGHT right block (the
+    # bounded search of the V=I branch works hardest there and meets its node budget), and a few generic targets
+    for _ in range(40 if th else 10):
+        N = rng.choice([9, 9, 10, 11]); k = rng.choice([2, 2, 3, 4])
+        w = ["I"] * (N - k)
+        for i in rng.sample(range(N - k), rng.choice([1, 1, 2, 2, 3])):
+            w[i] = rng.choice("XYZ")
+        smp.append(f"compile {N} {k} {'I' * k}{''.join(w)}")
+        if rng.random() < 0.3:
+            t = "".join(rng.choice("IIIXYZ") for _ in range(N))
+            if set(t) != {"I"}:
+                smp.append(f"compile {N} {k} {t}")
     return ex, smp
 
 def shrink_compile(line):
